@@ -157,7 +157,7 @@ def run_dopt(ctx, count, seed, modes=(0, 16)):
 def lp_eval(pinp, pmap, lines):
     """runs the shift-LP model driver on the hook records; classifies every record"""
     lp = {"records": len(pinp), "moving": 0, "arcs": 0, "accepted": 0,
-          "net_diff": [], "cert_rejected": [], "dual_infeasible": [], "pos_diff": [], "shift_ok_fail": [], "value_rose": [], "driver_fail": []}
+          "net_diff": [], "cert_rejected": [], "dual_infeasible": [], "pos_diff": [], "shift_ok_fail": [], "value_rose": [], "driver_fail": [], "state_hypotheses_fail": []}
     if not pinp:
         return lp
     sdriver = common.build_driver("shift")
@@ -184,6 +184,8 @@ def lp_eval(pinp, pmap, lines):
             lp["pos_diff"].append(entry)
         if f["shiftok"] != 1:
             lp["shift_ok_fail"].append(entry)
+        if f.get("hyp", 1) != 1:
+            lp["state_hypotheses_fail"].append(entry)
         if f["va"] > f["vb"]:
             lp["value_rose"].append((lines[i], rec, "op %d: x wirelength %d -> %d in one call of runShiftsOnCells; %s" % (k, f["vb"], f["va"], head.strip())))
     return lp
